@@ -106,6 +106,9 @@ type profile struct {
 var profiles = []profile{
 	{"delays-in-flush", "cursor-before-clone-readers=sleep(15,30);flush-after-wal-switch=sleep(40,60);flush-after-index-flush=sleep(20,40);flush-after-commit=sleep(40,60);flush-before-snapshot-release=sleep(40,60)", nil},
 	{"delays-in-replace", "cursor-before-clone-readers=sleep(15,30);replace-after-log=sleep(30,60);replace-after-rename=sleep(40,60);replace-after-delete-old=sleep(40,60);flush-after-commit=sleep(10,30)", nil},
+	// background flushes by cold duration (writers pause together), forced flushes fired
+	// while a background flush is between its memtable switch and the snapshot release
+	{"cold-background-flush", "flush-after-wal-switch=sleep(250);flush-after-commit=sleep(120);flush-before-snapshot-release=sleep(80)", map[string][]string{"data.memtable": {`write-cold-duration = "1s"`}}},
 	{"no-delays", "", nil},
 	{"delays-small-segments", "flush-after-wal-switch=sleep(30,50);replace-after-rename=sleep(30,50);flush-before-snapshot-release=sleep(30,50)", map[string][]string{"data": {"max-rows-per-segment = 8"}}},
 }
@@ -191,6 +194,9 @@ func (rn *runner) runOnce(runIdx int, p profile, nW, nR, batches, scans int) {
 		}
 	}
 	var stop int32
+	var totalBatches int64
+	var pauseUntil int64 // unix nanos until which writers hold off (cold-background-flush profile)
+	cold := p.Name == "cold-background-flush"
 	var closeTick int64 // logical time of the SIGTERM (0 = not yet)
 	var wg sync.WaitGroup
 	var writesDone int32
@@ -207,7 +213,22 @@ func (rn *runner) runOnce(runIdx int, p profile, nW, nR, batches, scans int) {
 			for i := range next {
 				next[i] = 1
 			}
-			for b := 0; b < batches && atomic.LoadInt32(&stop) == 0; b++ {
+			nb := batches
+			if cold {
+				nb = batches * 2 // the run must span several cold pauses
+			}
+			for b := 0; b < nb && atomic.LoadInt32(&stop) == 0; b++ {
+				if cold {
+					// every 100 batches (all writers together) everybody pauses for 1.6 s: the shard
+					// goes cold (write-cold-duration 1 s) and flushes in the background
+					if atomic.AddInt64(&totalBatches, 1)%100 == 0 {
+						atomic.StoreInt64(&pauseUntil, time.Now().Add(1600*time.Millisecond).UnixNano())
+						c.Count("cold-pauses", 1)
+					}
+					if d := atomic.LoadInt64(&pauseUntil) - time.Now().UnixNano(); d > 0 {
+						time.Sleep(time.Duration(d))
+					}
+				}
 				n := 1 + wr.IntN(3)
 				var body strings.Builder
 				var ops []op
@@ -343,6 +364,23 @@ func (rn *runner) runOnce(runIdx int, p profile, nW, nR, batches, scans int) {
 		fr := rand.New(rand.NewPCG(c.Seed, uint64(runIdx*100+90)))
 		n := 0
 		for atomic.LoadInt32(&stop) == 0 && atomic.LoadInt32(&writesDone) < int32(nW) {
+			if cold {
+				// every ~2.5 s all writers pause for 1.5 s: the shard goes cold and flushes in the
+				// background; fire a forced flush as soon as a snapshot is seen in progress
+				if st, err := s.State(db); err == nil {
+					for _, sh := range st.Shards {
+						if sh.SnapshotTbl {
+							atomic.AddInt64(&flushGen, 1)
+							_ = s.Flush()
+							atomic.AddInt64(&flushGen, 1)
+							c.Count("forced-flushes-fired-while-a-snapshot-was-in-progress", 1)
+							break
+						}
+					}
+				}
+				time.Sleep(15 * time.Millisecond)
+				continue
+			}
 			time.Sleep(time.Duration(150+fr.IntN(500)) * time.Millisecond)
 			if os.Getenv("VERIF_C04_NOMAINT") != "" {
 				continue
@@ -374,6 +412,11 @@ func (rn *runner) runOnce(runIdx int, p profile, nW, nR, batches, scans int) {
 		i := 0
 		for atomic.LoadInt32(&stop) == 0 && atomic.LoadInt32(&writesDone) < int32(nW) {
 			i++
+			if cold {
+				if d := atomic.LoadInt64(&pauseUntil) - time.Now().UnixNano(); d > 0 {
+					time.Sleep(time.Duration(d))
+				}
+			}
 			s.Write(db, fmt.Sprintf("md,w=9,s=0 fi=%di,fs=\"v%d\" %d\n", i, i, baseT+int64(i)*1_000_000_000), nil)
 			s.Query(db, "SELECT count(fi) FROM md", nil)
 			if i%40 == 20 && os.Getenv("VERIF_C04_NODROP") == "" {
